@@ -133,3 +133,149 @@ def check_sync_report(ctx, rule):
                     ok = ok and asked == [["report.namespace", "heads-of(report.heads)"]]
                 ctx.check(ok, rule, OSR, "report[%s,%s,news=%s]" % ("syncing" if syncing else "not-syncing", "decodes" if decode else "garbage", news if (syncing and decode) else "-"),
                           "returns %s; asked the store %s; requests %s; spec: one request to the sender of the report for the document it names iff the store flags the decoded heads as news" % (got, asked, dials), b.sp)
+
+
+L = "engine::live::LiveActor::"
+
+
+def eval_join_leave(f, which, syncing, fail=None):
+    """LiveActor::start_sync / leave evaluated against a model of the set of syncing documents: (result, log, marked syncing
+    afterwards)"""
+    from . import feval as E, coll
+    log = []
+    C = coll.Collections(f)
+    st = {"syncing": bool(syncing)}
+
+    def oracle(kind, name, payload, site):
+        if kind == "await":
+            nm = str(name)
+            if nm.startswith("fut:"):
+                m = nm[4:]
+                if m == fail:
+                    return E.Err(E.Tok("error:" + m))
+                if m == "get_sync_peers":
+                    return E.Ok(E.NONE)
+                return E.Ok(E.Tok("result:" + m))
+            return None
+        if kind != "call":
+            return None
+        t, a, it = payload
+        names = [it.tokname(x).strip("&*") for x in a]
+        if mir.callee_matches(t, r"engine::state::NamespaceStates::(is_syncing|insert|remove)$"):
+            log.append((name, names[1:]))
+            if name == "is_syncing":
+                return E.Int(1 if st["syncing"] else 0)
+            if name == "insert":
+                was = st["syncing"]
+                st["syncing"] = True
+                ret_ty = t["f"].get("ret") or ""
+                return E.Int(0 if was else 1)     # (a `bool` result, if the function has one: newly inserted)
+            was = st["syncing"]
+            st["syncing"] = False
+            return E.Int(1 if was else 0)
+        if mir.callee_matches(t, r"actor::SyncHandle::\w+$"):
+            log.append((name, names[1:] if name != "open" else [names[1], E.describe(it.resolve(a[2]), f)]))
+            return E.Tok("fut:" + name)
+        if mir.callee_matches(t, r"engine::live::LiveActor::join_peers$"):
+            log.append(("join_peers", names[1:2]))
+            return E.Tok("fut:join_peers")
+        if name == "quit":
+            log.append(("gossip.quit", names[1:]))
+            return E.UNIT
+        if name == "clone":
+            return a[0]
+        if name == "remove" and names and "subscribers" in names[0]:
+            return E.NONE
+        return C.handle(kind, name, payload, site)
+    args = [E.href("this"), E.Tok("ns")] + ([coll.seq("vec", [])] if which == "start_sync" else [E.Int(0)])
+    try:
+        ret, hp, evs = E.run_async(f, L + which, args, {"this": E.Tok("actor")}, oracle)
+        return E.describe(ret, f), log, st["syncing"]
+    except E.Unsupported as e:
+        return "UNSUPPORTED-FORM: %s" % e, log, st["syncing"]
+
+
+def check_join_leave(ctx, rule):
+    """the engine's own use of the store handle is balanced and truthful: joining a document takes one handle (with sync on and
+    the engine's event channel subscribed) exactly when the document was not joined yet, and marks it as joined only if that
+    open succeeded; leaving releases exactly that handle, and only if the document was joined"""
+    f = ctx.facts
+    ss = f.body(L + "start_sync::{closure#0}")
+    lv = f.body(L + "leave::{closure#0}")
+    ctx.touch(ss, lv)
+    for syncing, fail in ((0, None), (0, "open"), (1, None)):
+        got, log, marked = eval_join_leave(f, "start_sync", syncing, fail)
+        opens = [x for x in log if x[0] == "open"]
+        names = [x[0] for x in log]
+        problems = []
+        if got.startswith("UNSUPPORTED"):
+            problems.append(got)
+        elif syncing:
+            if opens:
+                problems.append("a document that is joined already is opened again (a handle nobody releases)")
+            if not marked:
+                problems.append("no longer marked as joined")
+        elif fail:
+            if not got.startswith("Err("):
+                problems.append("the failed open is not reported")
+            if marked:
+                problems.append("marked as joined although the open failed: a later join skips the open, and leaving releases a handle that was never taken")
+        else:
+            if len(opens) != 1 or opens[0][1][0] != "ns" or "replica_events_tx" not in opens[0][1][1] or not opens[0][1][1].startswith("0(1,"):
+                problems.append("expected one open of the document with sync on and the engine's event channel subscribed, got %s" % opens)
+            if not marked:
+                problems.append("not marked as joined")
+            if not got.startswith("Ok("):
+                problems.append("returns %s" % got)
+        ctx.check(not problems, rule, L + "start_sync", "join[%s%s]" % ("joined-already" if syncing else "not-joined", ",open-fails" if fail else ""),
+                  "returns %s; calls %s; marked as joined afterwards: %s; %s" % (got, log, marked, "; ".join(problems) or "as specified"), ss.sp)
+    for syncing in (1, 0):
+        got, log, marked = eval_join_leave(f, "leave", syncing)
+        closes = [x for x in log if x[0] == "close"]
+        off = [x for x in log if x[0] == "set_sync"]
+        unsub = [x for x in log if x[0] == "unsubscribe"]
+        problems = []
+        if got.startswith("UNSUPPORTED"):
+            problems.append(got)
+        elif syncing:
+            if len(closes) != 1 or closes[0][1] != ["ns"]:
+                problems.append("expected exactly one close of the document, got %s" % closes)
+            if marked:
+                problems.append("still marked as joined")
+        else:
+            if closes or off or unsub:
+                problems.append("a document that was not joined is closed / switched off / unsubscribed: %s" % (closes + off + unsub))
+        ctx.check(not problems, rule, L + "leave", "leave[%s]" % ("joined" if syncing else "not-joined"),
+                  "returns %s; calls %s; marked as joined afterwards: %s; %s" % (got, log, marked, "; ".join(problems) or "as specified"), lv.sp)
+
+
+def check_state_insert(ctx, rule):
+    """NamespaceStates::insert evaluated on a map model: marking a document that is marked already keeps its per-peer sync states
+    (a second start_sync - adding peers, sharing - must not reset the slots of running sessions)"""
+    from . import feval as E, coll
+    f = ctx.facts
+    NS = "engine::state::NamespaceStates"
+    b = f.body(NS + "::insert")
+    ctx.touch(b)
+    for present in (1, 0):
+        C = coll.Collections(f)
+
+        def oracle(kind, name, payload, site):
+            if kind in ("eq", "cmp"):
+                a, b2 = str(name), str(payload)
+                if a.startswith("ns") and b2.startswith("ns"):
+                    return (a == b2) if kind == "eq" else ((a > b2) - (a < b2))
+                return None
+            return C.handle(kind, name, payload, site)
+        items = [("tuple", [E.Tok("ns1"), E.href("cell-of-ns1")])] if present else []
+        heap = {"self": E.struct(f, NS, **{"0": coll.seq("map", items)}), "cell-of-ns1": E.Tok("state-with-running-sessions")}
+        try:
+            ret, itp = E.run_it(f, b.path, [E.href("self"), E.Tok("ns1")], heap, oracle)
+            m = E.field(f, itp.heap["self"], NS, "0")
+            rows = [(itp.tokname(x[1][0]), E.describe(itp.deref_val(x[1][1]), f)) for x in (m[2] if coll.is_seq(m) else [])]
+            after = str(rows)
+        except E.Unsupported as e:
+            rows, after = None, "UNSUPPORTED-FORM: %s" % e
+        ok = rows is not None and len(rows) == 1 and rows[0][0] == "ns1" and (rows[0][1] == "state-with-running-sessions" if present else True)
+        ctx.check(ok, rule, b.path, "mark-as-syncing[%s]" % ("marked-already" if present else "new"),
+                  "set afterwards: %s; spec: %s" % (after, "the existing per-peer states are kept" if present else "the document is in the set"), b.sp)
